@@ -9,6 +9,9 @@ use core::convert::TryFrom;
 use core::fmt::Debug;
 use helgoboss_midi::*;
 
+#[path = "../../common/xt.rs"]
+mod xt;
+
 struct Out {
     id: String,
     evals: u64,
@@ -207,6 +210,15 @@ fn range_audit(o: &mut Out) {
 fn main() {
     let args: Vec<String> = std::env::args().collect();
     let id = args.get(1).cloned().unwrap_or_else(|| "C04".to_string());
+    if let Some((h, calls)) = xt::transcript(&id) {
+        // a scanner / encoder check: only the cross-target transcript
+        println!(
+            "P32 TRANSCRIPT {{\"pointer_width\": {}, \"big_endian\": {}, \"hash\": \"{:016x}\", \"calls\": {}}}",
+            core::mem::size_of::<usize>() * 8, cfg!(target_endian = "big"), h, calls
+        );
+        println!("P32 DONE");
+        return;
+    }
     let mut o = Out { id: id.clone(), evals: 0, in_range: 0, out_of_range: 0, violations: Vec::new(), counts: Vec::new() };
     let a = alphabet();
     let o_ref = &mut o;
@@ -226,7 +238,7 @@ fn main() {
         range_audit(o_ref);
     }
     println!(
-        "P32 EVIDENCE {{\"pointer_width\": {}, \"evaluations\": {}, \"in_range_inputs\": {}, \"out_of_range_inputs\": {}, \"alphabet\": {}}}",
+        "P32 EVIDENCE {{\"big_endian\": false, \"pointer_width\": {}, \"evaluations\": {}, \"in_range_inputs\": {}, \"out_of_range_inputs\": {}, \"alphabet\": {}}}",
         core::mem::size_of::<usize>() * 8, o.evals, o.in_range, o.out_of_range, a.len()
     );
     for (i, (rule, sig, detail)) in o.violations.iter().enumerate() {
